@@ -470,6 +470,55 @@ fn c06_symlinked_output(ctx: &mut Ctx, r: &mut StdRng) {
     ctx.scratch.discard(&root);
 }
 
+/// A source that comes `after` another one and then includes that one's *temp file*: verify has to
+/// honour the ordering like build does (verify regenerates temp files). With the temp file deleted
+/// the up-to-date tree still verifies; with the temp directive's body edited the includer's output is
+/// out of date and verify fails; outputs are never touched.
+fn c06_temp_through_after(ctx: &mut Ctx, r: &mut StdRng) {
+    let root = ctx.scratch.fresh();
+    let delay = ["", "sleep 0.2; ", "sleep 0.5; "][r.gen_range(0..3)];
+    let gen_src = |item: &str| format!("-TXTPP#run {delay}echo gen\n// TXTPP#temp list.tmp\n// {item}\n// second\n\ngen tail\n");
+    let mut files = Files::new();
+    files.insert("gen.txt.txtpp".into(), gen_src("item one").into_bytes());
+    files.insert("page.txt.txtpp".into(), b"page head\n-TXTPP#after gen.txt\n-TXTPP#include list.tmp\npage tail\n".to_vec());
+    materialize(&root, &files, &[]);
+    let mut case = ProjectCase::simple(files.clone());
+    case.threads = [2usize, 4, 8][r.gen_range(0..3)];
+    case.inputs = vec![[".", "page.txt"][r.gen_range(0..2)].to_string()];
+    let cj = json!({"kind": "temp-through-after", "threads": case.threads, "inputs": case.inputs, "delay": delay});
+    let b = run_at(&root, &case, Mode::Build, true);
+    ctx.evals += 1;
+    if !b.verdict.is_ok() {
+        ctx.count("temp_through_after_build_not_ok", 1);
+        ctx.scratch.discard(&root);
+        return;
+    }
+    ctx.count("temp_through_after_cases", 1);
+    let outs = ["gen.txt", "page.txt"];
+    let good: Vec<Vec<u8>> = outs.iter().map(|o| std::fs::read(root.join(o)).unwrap_or_default()).collect();
+    // (1) temp file missing, everything else up to date
+    let _ = std::fs::remove_file(root.join("list.tmp"));
+    let v = run_at(&root, &case, Mode::Verify, true);
+    ctx.evals += 1;
+    if !matches!(v.verdict, Verdict::Watchdog) && !v.verdict.is_ok() {
+        ctx.violation("C06:rejects-up-to-date", format!("every output is up to date, only the temp file of the dependency was deleted: verify failed ({})", v.verdict.short()), cj.clone());
+    }
+    // (2) only the temp directive's body changes: page.txt on disk is now out of date
+    let _ = std::fs::write(root.join("gen.txt.txtpp"), gen_src("item ONE (edited)"));
+    let v = run_at(&root, &case, Mode::Verify, true);
+    ctx.evals += 1;
+    if !matches!(v.verdict, Verdict::Watchdog) && v.verdict.is_ok() {
+        ctx.violation("C06:accepts-stale:edit-temp-body", "the body of the dependency's temp directive was edited, so the includer's output is out of date, but verify passed (it used the temp file an earlier run left behind)".to_string(), cj.clone());
+    }
+    for (o, g) in outs.iter().zip(good.iter()) {
+        if &std::fs::read(root.join(o)).unwrap_or_default() != g {
+            ctx.violation("C06:verify-modified-output", format!("verify changed {o}"), cj.clone());
+        }
+    }
+    ctx.distinct.insert(crate::util::hash_str(&format!("{cj}{}", ctx.evals)));
+    ctx.scratch.discard(&root);
+}
+
 fn run_c06(ctx: &mut Ctx) {
     let mut r = StdRng::seed_from_u64(ctx.shard_seed());
     let n = ctx.tier.pick(40, 1500);
@@ -480,6 +529,9 @@ fn run_c06(ctx: &mut Ctx) {
         }
         if i % 8 == 1 {
             c06_symlinked_output(ctx, &mut r);
+        }
+        if i % 8 == 5 {
+            c06_temp_through_after(ctx, &mut r);
         }
         let Some(b) = build_good(ctx, &mut r, &opts, None) else { continue };
         c06_project(ctx, &b, &mut r);
@@ -499,6 +551,13 @@ fn replay_c06(ctx: &mut Ctx, v: &Value) {
         let mut r = StdRng::seed_from_u64(5);
         for _ in 0..30 {
             c06_symlinked_output(ctx, &mut r);
+        }
+        return;
+    }
+    if v["kind"].as_str() == Some("temp-through-after") {
+        let mut r = StdRng::seed_from_u64(5);
+        for _ in 0..20 {
+            c06_temp_through_after(ctx, &mut r);
         }
         return;
     }
@@ -542,6 +601,11 @@ fn possible_generated(files: &Files) -> BTreeSet<String> {
         let dir = model::dir_of(&src).to_string();
         for l in text.lines() {
             if let Some(i) = l.find("TXTPP#temp ") {
+                // a temp directive without prefix is an error in every mode: it never generates (and
+                // never cleans) anything, so its target is not a possibly generated path
+                if l[..i].trim().is_empty() {
+                    continue;
+                }
                 let arg = l[i + 11..].trim();
                 if let Some(p) = model::norm_path(&dir, arg) {
                     s.insert(p);
@@ -723,6 +787,14 @@ fn c07_make(ctx: &mut Ctx, r: &mut StdRng, mlog: &Path, erroneous: bool) -> Proj
                 let own = model::output_of(&s).unwrap();
                 text.push_str(&format!("<!--c TXTPP#include {}\n<!--c TXTPP#temp cyc_{}.tmp\n<!--c after the cycle\n", own.rsplit('/').next().unwrap(), r.gen_range(0..3)));
             }
+            2 => {
+                // a prefix-less temp directive (always an error) naming an existing hand-written
+                // file: no mode may touch that file
+                let victim = ["inc_nl.txt", "inc_nonl.txt", "inc_crlf.txt"][r.gen_range(0..3)];
+                if files.contains_key(victim) {
+                    text.push_str(&format!("{}TXTPP#temp {}\n", ["", "  ", "\t"][r.gen_range(0..3)], crate::gen::rel(model::dir_of(&s), victim)));
+                }
+            }
             1 => {
                 // a temp directive naming an existing source of the `stem.txtpp.ext` shape: refused by
                 // build, and clean must never delete a .txtpp file
@@ -762,7 +834,15 @@ fn c07_race(ctx: &mut Ctx, rounds: usize) {
         materialize(&root, &files, &[]);
         let s0 = snap(&root);
         let b = run_at(&root, &case, Mode::Build, true);
-        let c = run_at(&root, &case, Mode::Clean, true);
+        // odd rounds: every source is named twice (by its output name and by its `.txtpp` name) next
+        // to the directory: each must still be cleaned exactly once
+        let mut clean_case = case.clone();
+        if round % 2 == 1 {
+            clean_case.threads = 4;
+            clean_case.inputs = model::sources(&files).iter().flat_map(|s| [model::output_of(s).unwrap(), s.clone()]).collect();
+            ctx.count("clean_rounds_with_every_source_named_twice", 1);
+        }
+        let c = run_at(&root, &clean_case, Mode::Clean, true);
         ctx.evals += 2;
         ctx.count("clean_race_rounds", 1);
         let s1 = snap(&root);
@@ -1485,8 +1565,103 @@ fn c09_cli(ctx: &mut Ctx, b: &Built) {
     }
 }
 
+/// Outputs of 9, 17 and 33 MiB (an included plain file of that size): the only-if-needed mode must
+/// leave an up-to-date output of any size alone (inode, modification time), bring a stale one up to
+/// date, and give the bytes of a normal build.
+fn c09_big_output(ctx: &mut Ctx, mib: usize) {
+    let root = ctx.scratch.fresh();
+    let line = "0123456789abcdef0123456789abcdef0123456789abcdef0123456789abcde\n"; // 64 bytes
+    let blob = line.repeat(mib * 16 * 1024);
+    let mut files = Files::new();
+    files.insert("blob.dat".into(), blob.clone().into_bytes());
+    files.insert("big.txt.txtpp".into(), b"head\n-TXTPP#include blob.dat\ntail\n".to_vec());
+    files.insert("small.txt.txtpp".into(), b"small\n".to_vec());
+    materialize(&root, &files, &[]);
+    let case = ProjectCase::simple(files);
+    let cj = json!({"kind": "big-output", "mib": mib});
+    let b = run_at(&root, &case, Mode::Build, true);
+    ctx.evals += 1;
+    ctx.count("big_output_cases", 1);
+    let want = format!("head\n{blob}tail\n").into_bytes();
+    if !b.verdict.is_ok() || std::fs::read(root.join("big.txt")).unwrap_or_default() != want {
+        if !matches!(b.verdict, Verdict::Watchdog) {
+            ctx.violation("C09:big-output:build", format!("plain build of a {mib} MiB output: verdict {}, bytes {}", b.verdict.short(), if b.verdict.is_ok() { "differ" } else { "n/a" }), cj);
+        }
+        ctx.scratch.discard(&root);
+        return;
+    }
+    set_sentinels(&root);
+    let s0 = snap(&root);
+    let n1 = run_at(&root, &case, Mode::InMemoryBuild, true);
+    ctx.evals += 1;
+    let s1 = snap(&root);
+    if !matches!(n1.verdict, Verdict::Watchdog) {
+        let d = diff(&s0, &s1);
+        if !n1.verdict.is_ok() {
+            ctx.violation("C09:needed-verdict-differs", format!("needed-build over an up-to-date {mib} MiB output failed: {}", n1.verdict.short()), cj.clone());
+        } else if !d.is_empty() {
+            ctx.violation("C09:needed-rewrote-up-to-date:output", format!("needed-build rewrote or touched an output that was already correct ({mib} MiB): changed {:?}, touched {:?}", d.content, d.touched), cj.clone());
+        }
+    }
+    // stale: one byte in the middle differs
+    let mut stale = want.clone();
+    let k = stale.len() / 2;
+    stale[k] ^= 1;
+    let _ = std::fs::write(root.join("big.txt"), &stale);
+    let n2 = run_at(&root, &case, Mode::InMemoryBuild, true);
+    ctx.evals += 1;
+    if !matches!(n2.verdict, Verdict::Watchdog) && (!n2.verdict.is_ok() || std::fs::read(root.join("big.txt")).unwrap_or_default() != want) {
+        ctx.violation("C09:stale-not-brought-up-to-date:output", format!("needed-build over a {mib} MiB output with one changed byte: verdict {}, output {}", n2.verdict.short(), if n2.verdict.is_ok() { "still stale" } else { "n/a" }), cj.clone());
+    }
+    ctx.distinct.insert(crate::util::hash_str(&cj.to_string()));
+    ctx.scratch.discard(&root);
+}
+
+/// An output path that is a symbolic link whose target does not exist yet (`src/a.txt ->
+/// ../dist/a.txt`): a normal build creates the file behind the link; the only-if-needed mode must
+/// succeed in exactly the same way and leave the same bytes.
+fn c09_dangling_output_link(ctx: &mut Ctx, r: &mut StdRng) {
+    let mut results: Vec<(bool, Option<Vec<u8>>)> = vec![];
+    let relative = r.gen_bool(0.5);
+    for mode in [Mode::Build, Mode::InMemoryBuild] {
+        let root = ctx.scratch.fresh();
+        let mut files = Files::new();
+        files.insert("src/a.txt.txtpp".into(), b"a head\n-TXTPP#run echo generated\na tail\n".to_vec());
+        files.insert("src/b.txtpp.md".into(), b"b\n".to_vec());
+        materialize(&root, &files, &["dist".to_string()]);
+        let target = if relative { "../dist/a.txt".to_string() } else { root.join("dist/a.txt").display().to_string() };
+        let _ = std::os::unix::fs::symlink(&target, root.join("src/a.txt"));
+        let mut case = ProjectCase::simple(files);
+        case.inputs = vec![["src", ".", "src/a.txt.txtpp"][r.gen_range(0..3)].to_string()];
+        let o = run_at(&root, &case, mode, true);
+        ctx.evals += 1;
+        if matches!(o.verdict, Verdict::Watchdog) {
+            ctx.scratch.discard(&root);
+            return;
+        }
+        results.push((o.verdict.is_ok(), std::fs::read(root.join("dist/a.txt")).ok()));
+        ctx.scratch.discard(&root);
+    }
+    ctx.count("dangling_output_link_cases", 1);
+    let cj = json!({"kind": "dangling-output-link", "relative": relative});
+    if results[0].0 != results[1].0 {
+        ctx.violation("C09:needed-verdict-differs", format!("output path is a dangling symbolic link: normal build ok={}, needed-build ok={}", results[0].0, results[1].0), cj.clone());
+    } else if results[0].1 != results[1].1 {
+        ctx.violation("C09:needed-differs-from-build:output", "output path is a dangling symbolic link: the file behind the link differs between a normal build and a needed-build".to_string(), cj.clone());
+    }
+    ctx.distinct.insert(crate::util::hash_str(&format!("{cj}{}", ctx.evals)));
+}
+
 fn run_c09(ctx: &mut Ctx) {
+    for (k, mib) in [9usize, 17, 33].iter().enumerate() {
+        if ctx.claim(9_100_000 + k as u64) && (ctx.tier == crate::fw::Tier::Thorough || *mib == 9) {
+            c09_big_output(ctx, *mib);
+        }
+    }
     let mut r = StdRng::seed_from_u64(ctx.shard_seed());
+    for _ in 0..3 {
+        c09_dangling_output_link(ctx, &mut r);
+    }
     let n = ctx.tier.pick(25, 400);
     let opts = GenOpts { error_pct: 0, ..GenOpts::default() };
     for i in 0..n {
@@ -1506,6 +1681,17 @@ fn run_c09(ctx: &mut Ctx) {
 }
 
 fn replay_c09(ctx: &mut Ctx, v: &Value) {
+    if v["kind"].as_str() == Some("big-output") {
+        c09_big_output(ctx, v["mib"].as_u64().unwrap_or(9) as usize);
+        return;
+    }
+    if v["kind"].as_str() == Some("dangling-output-link") {
+        let mut r = StdRng::seed_from_u64(9);
+        for _ in 0..10 {
+            c09_dangling_output_link(ctx, &mut r);
+        }
+        return;
+    }
     // the recorded case holds the pre-state of the judged step
     let case = ProjectCase::from_json(v);
     let root = ctx.scratch.fresh();
@@ -1648,6 +1834,12 @@ fn decoys_for(files: &Files) -> Files {
 }
 
 fn c10_case(ctx: &mut Ctx, files: &Files, trailing: bool, mode: Mode, inputs: Vec<String>, recursive: bool, prebuild: bool, threads: usize) {
+    // D7: a command outside the vocabulary (typically a run block that swallowed following lines,
+    // possibly with a shell redirection in them) may write anywhere: not judged
+    if model::evaluate(files, "/nonexistent", trailing, &model::sources(files)).out_of_domain.is_some() {
+        ctx.count("out_of_domain", 1);
+        return;
+    }
     let root = ctx.scratch.fresh();
     let mut all = files.clone();
     let decoys = decoys_for(files);
@@ -1860,6 +2052,54 @@ fn c10_symlinked_output(ctx: &mut Ctx, r: &mut StdRng) {
     ctx.scratch.discard(&root);
 }
 
+/// Directive paths that must be taken literally: a backslash in a temp FILE_PATH is an ordinary
+/// file-name character here (`gen\rows.txt` is one file beside the source, not `gen/rows.txt`), and
+/// `include x.txt.txtpp` splices the *source text* of another source without making it a
+/// dependency (its output and temp files are not to be produced when only the includer is named).
+fn c10_literal_paths(ctx: &mut Ctx, r: &mut StdRng) {
+    let root = ctx.scratch.fresh();
+    let mut files = Files::new();
+    files.insert("page.txt.txtpp".into(), b"page\n-TXTPP#temp gen\\rows.txt\n-row 1\n-row 2\nend\n".to_vec());
+    files.insert("gen/rows.txt".into(), b"hand-written rows: must stay untouched\n".to_vec());
+    files.insert("gen/keep.txt".into(), b"keep\n".to_vec());
+    files.insert("includer.txt.txtpp".into(), format!("-TXTPP#{} foo.txt.txtpp\nincluder body\n", ["include", "after"][r.gen_range(0..2)]).into_bytes());
+    files.insert("foo.txt.txtpp".into(), b"// TXTPP#temp foo.g.txt\n// generated by foo\n\nfoo body\n".to_vec());
+    materialize(&root, &files, &[]);
+    let mut case = ProjectCase::simple(files.clone());
+    case.inputs = vec!["page.txt".into(), "includer.txt".into()];
+    case.recursive = false;
+    case.threads = [1, 2, 4][r.gen_range(0..3)];
+    let allowed = ["page.txt", "gen\\rows.txt", "includer.txt"];
+    let seq = [Mode::Build, Mode::InMemoryBuild, Mode::Verify, Mode::Clean, Mode::InMemoryBuild];
+    for (step, mode) in seq.iter().enumerate() {
+        set_sentinels(&root);
+        let s0 = snap(&root);
+        let o = run_at(&root, &case, mode.clone(), true);
+        ctx.evals += 1;
+        if matches!(o.verdict, Verdict::Watchdog) {
+            break;
+        }
+        let name = crate::run::mode_name(mode);
+        let cj = json!({"kind": "literal-paths", "step": step, "mode": name, "threads": case.threads});
+        let d = diff(&s0, &snap(&root));
+        for p in d.all_paths() {
+            if !allowed.contains(&p.as_str()) {
+                ctx.violation(
+                    format!("C10:{name}:{}", if p == "gen/rows.txt" { "touched-decoy" } else { "touched-output-of-unprocessed-source" }),
+                    format!("{name} (step {step}, inputs page.txt includer.txt) created/changed/deleted {p}; allowed are only page.txt, includer.txt and the temp target literally named `gen\\rows.txt`"),
+                    cj.clone(),
+                );
+            }
+        }
+        if step == 0 && o.verdict.is_ok() && !root.join("gen\\rows.txt").exists() {
+            ctx.violation("C10:build:touched-other-path", "the temp target named `gen\\rows.txt` was not written under that literal name".to_string(), cj.clone());
+        }
+    }
+    ctx.count("literal_path_cases", 1);
+    ctx.distinct.insert(crate::util::hash_str(&format!("literal{}{}", case.threads, ctx.evals)));
+    ctx.scratch.discard(&root);
+}
+
 fn run_c10(ctx: &mut Ctx) {
     let mut r = StdRng::seed_from_u64(ctx.shard_seed());
     let n = ctx.tier.pick(300, 12_000);
@@ -1877,6 +2117,9 @@ fn run_c10(ctx: &mut Ctx) {
         }
         if i % 20 == 9 {
             c10_symlinked_output(ctx, &mut r);
+        }
+        if i % 30 == 4 {
+            c10_literal_paths(ctx, &mut r);
         }
         let opts = GenOpts { error_pct: if i % 3 == 0 { 15 } else { 0 }, ..GenOpts::default() };
         let mut p = gen_project(&mut r, &opts);
@@ -1931,6 +2174,13 @@ fn replay_c10(ctx: &mut Ctx, v: &Value) {
         let mut r = StdRng::seed_from_u64(5);
         for _ in 0..30 {
             c10_symlinked_output(ctx, &mut r);
+        }
+        return;
+    }
+    if v["kind"].as_str() == Some("literal-paths") {
+        let mut r = StdRng::seed_from_u64(5);
+        for _ in 0..12 {
+            c10_literal_paths(ctx, &mut r);
         }
         return;
     }
